@@ -27,6 +27,8 @@ pub mod streams;
 pub mod system_calls;
 pub mod term_stream;
 pub mod unify;
+#[cfg(feature = "verif")]
+mod verif_footprint;
 
 use crate::arena::*;
 use crate::arithmetic::*;
